@@ -12,7 +12,7 @@ META = {
     'floors': {'generated_valid_accepted': 20, 'mutants': 100, 'hostile': 20, 'mapfile_cases': 20, 'typed_matrix': 200, 'intrinsic_abi_cells': 500},
     'profiles': {'quick': ('dev',), 'thorough': ('dev', 'release')},
 }
-SIZES = {'quick': 8500, 'thorough': 150000}
+SIZES = {'quick': 17000, 'thorough': 150000}
 
 MINI = {
     'anm': ('''entry { path: "a.png", has_data: false, img_width: 64, img_height: 64, img_format: 3, sprites: {sprite0: {id: 0, x: 0.0, y: 0.0, w: 1.0, h: 1.0}} }
@@ -170,22 +170,48 @@ def run_shard(ctx):
             if k % ctx.nshards == ctx.shard and (ctx.tier != 'quick' or (k // ctx.nshards) % 2 == (0 if tool == 'anm' else 1)):
                 _w, text = TM.wrap(r, stmt, '$REG[10002]')
                 plan.append(('typed-matrix', tool, MINI[tool][1], (MINI[tool][0] % text).encode(), mk + '\n!ins_signatures\n900 S\n901 f\n'))
-    # intrinsic ABI matrix: every intrinsic kind declared on every signature over {o, t, S, f, E} of length <= 3 (and a few longer ones):
-    # validation of a user mapfile must end in a diagnostic or a working table, never in a crash
+    # intrinsic ABI matrix: every intrinsic kind declared on every signature over {o, t, S, f} of length <= 3 (and a few longer ones),
+    # with dword/byte padding inserted at every position of a sample of them, and a body that *uses* the intrinsic so that the
+    # declaration is exercised by lowering and not only by validation: a user mapfile must end in a diagnostic or in a working
+    # table, never in a crash
     import itertools
-    INTR = ['Jmp()', 'Interrupt()', 'AssignOp(op="="; type="int")', 'AssignOp(op="+="; type="float")', 'BinOp(op="+"; type="int")', 'BinOp(op="<"; type="float")', 'UnOp(op="-"; type="int")',
-            'UnOp(op="sin"; type="float")', 'CountJmp()', 'CountJmp(op=">")', 'CondJmp(op="=="; type="int")', 'CondJmp(op="<"; type="float")', 'DedicatedCmp(type="int")', 'DedicatedCmpJmp(op="!=")',
-            'CallEosd()', 'CallReg()']
-    sigs = [''.join(t) for n in range(0, 4) for t in itertools.product('otSf', repeat=n)] + ['SSot', 'ffto', 'otSS', 'Sfot', 'oSSt', 'tSSo', 'E(imm)S(imm)f(imm)', 'ESf', 'S(imm)', 'oo', 'tt', 'ott', 'oot']
+    INTR = [('Jmp()', 'goto lbl;'), ('Interrupt()', 'interrupt[1]:'), ('AssignOp(op="="; type="int")', '%(I)s = 3;'), ('AssignOp(op="+="; type="float")', '%(F)s += 1.5;'),
+            ('BinOp(op="+"; type="int")', '%(I)s = %(J)s + 3;'), ('BinOp(op="<"; type="float")', '%(I)s = %(F)s < 2.0;'), ('UnOp(op="-"; type="int")', '%(I)s = -%(J)s;'),
+            ('UnOp(op="sin"; type="float")', '%(F)s = sin(%(G)s);'), ('CountJmp()', 'if (--%(I)s) goto lbl;'), ('CountJmp(op=">")', 'if (--%(I)s > 0) goto lbl;'),
+            ('CondJmp(op="=="; type="int")', 'if (%(I)s == 1) goto lbl;'), ('CondJmp(op="<"; type="float")', 'if (%(F)s < 1.0) goto lbl @ 5;'), ('DedicatedCmp(type="int")', 'if (%(I)s != 2) goto lbl;'),
+            ('DedicatedCmpJmp(op="!=")', 'if (%(I)s != 2) goto lbl;'), ('CallEosd()', 'sub0(1, 2.0);'), ('CallReg()', 'sub0();')]
+    base_sigs = [''.join(t) for n in range(0, 4) for t in itertools.product('otSf', repeat=n)] + ['SSot', 'ffto', 'otSS', 'Sfot', 'oSSt', 'tSSo', 'E(imm)S(imm)f(imm)', 'ESf', 'S(imm)', 'oo', 'tt', 'ott', 'oot',
+                                                                                          'SSSot', 'Sffot', 'fSS', 'ffot', 'Sto']
+    padded = []
+    for sg in [x for x in base_sigs if 1 <= len(x) <= 5 and '(' not in x]:
+        for pos in range(len(sg) + 1):
+            padded.append(sg[:pos] + '_' + sg[pos:])
+            if pos < len(sg): padded.append(sg[:pos] + '----' + sg[pos:])
     k = 0
     for tool, mk, game in (('anm', '!anmmap', 'th12'), ('ecl', '!eclmap', 'th06'), ('ecl', '!eclmap', 'th08')):
-        for intr in INTR:
-            for sg in sigs:
+        regs = {'I': '$REG[%d]' % (10000 if tool == 'anm' else -10001), 'J': '$REG[%d]' % (10001 if tool == 'anm' else -10002),
+                'F': '%%REG[%d]' % (10004 if tool == 'anm' else -10005), 'G': '%%REG[%d]' % (10005 if tool == 'anm' else -10006)}
+        for intr, stmt in INTR:
+            for si, sg in enumerate(base_sigs + padded):
                 k += 1
                 if k % ctx.nshards != ctx.shard: continue
-                if ctx.tier == 'quick' and (k // ctx.nshards) % 3 != (ctx.seed % 3): continue
-                body = 'ins_900();' if tool == 'anm' else 'ins_900();'
-                plan.append(('intrinsic-abi', tool, game, (MINI[tool][0] % '$REG[%d] = 3;\nlbl:\ngoto lbl;' % (10000 if game != 'th06' else -10001)).encode(), '%s\n!ins_signatures\n900 %s\n!ins_intrinsics\n900 %s\n' % (mk, sg, intr)))
+                if si < len(base_sigs):
+                    if ctx.tier == 'quick' and (k // ctx.nshards) % 3 != (ctx.seed % 3): continue
+                elif (k // ctx.nshards) % (12 if ctx.tier == 'quick' else 2) != (ctx.seed % (12 if ctx.tier == 'quick' else 2)): continue
+                body = '$REG[%d] = 3;\nlbl:\n%s\ngoto lbl;' % (10000 if game != 'th06' else -10001, stmt % regs)
+                plan.append(('intrinsic-abi', tool, game, (MINI[tool][0] % body).encode(), '%s\n!ins_signatures\n900 %s\n!ins_intrinsics\n900 %s\n' % (mk, sg, intr)))
+    # label-valued arguments (offsetof / timeof) in parameters of every width: the value is only known after the first encoding pass
+    k = 0
+    for tool, mk, game in (('anm', '!anmmap', 'th12'), ('ecl', '!eclmap', 'th07'), ('anm', '!anmmap', 'th06')):
+        for ch in ['b', 'c', 's', 'u', 'S', 'U', 'f', 'n', 'N', 'E', 'C', 'o', 't', 'b(imm)', 's(hex)', 'z(bs=4)', 'S(arg0)' if False else 's(imm)']:
+            for fn in ('timeof', 'offsetof'):
+                for far in (0, 200, 300, 40000, 70000, -200, -40000):
+                    k += 1
+                    if k % ctx.nshards != ctx.shard: continue
+                    filler = '\n'.join(['ins_901(1, 2, 3, 4, 5, 6, 7, 8);'] * (1 + abs(far) // 40 if fn == 'offsetof' else 1))
+                    body = 'ins_900(%s(lbl));\n%s\n%s:\nlbl:\nins_901(1, 2, 3, 4, 5, 6, 7, 8);' % (fn, filler, far) if far >= 0 else \
+                           '%s:\nlbl:\n%s\n0:\nins_900(%s(lbl));' % (far, filler, fn)
+                    plan.append(('label-arg', tool, game, (MINI[tool][0] % body).encode(), '%s\n!ins_signatures\n900 %s\n901 SSSSSSSS\n' % (mk, ch)))
     corpus_dir = os.path.join(core.VERIF, 'corpus', 'C04')
     if os.path.isdir(corpus_dir):
         for i, name in enumerate(sorted(os.listdir(corpus_dir))):
@@ -215,7 +241,7 @@ def run_shard(ctx):
                   'text': data.decode('utf-8', 'surrogateescape'), 'mapfile': mapfile, 'class': cls}
         input_id = item[8] if len(item) > 8 else None
         v = crash.judge_exec(ctx, 'C04', job, resp, len(data), '%s compile -g %s (%s input)' % (core.TOOLBIN[tool], game, cls), replay, input_id=input_id, memory_clause=False)   # (memory exhaustion is part of C16's statement, not C04's; aborts are still observed)
-        ctx.count({'generated': 'generated', 'mutant': 'mutants', 'hostile': 'hostile', 'mapfile': 'mapfile_cases', 'corpus': 'corpus', 'typed-matrix': 'typed_matrix', 'intrinsic-abi': 'intrinsic_abi_cells'}[cls])
+        ctx.count({'generated': 'generated', 'mutant': 'mutants', 'hostile': 'hostile', 'mapfile': 'mapfile_cases', 'corpus': 'corpus', 'typed-matrix': 'typed_matrix', 'intrinsic-abi': 'intrinsic_abi_cells', 'label-arg': 'label_arg_cells'}[cls])
         if cls == 'generated':
             ctx.count('generated_valid_accepted' if v == 'ok' else 'generated_rejected')
             if v == 'err': ctx.seen('generated_reject_reasons', '%s:%s: %s' % (item[6], game, core.norm_msg(core.headline(resp.get('diag', '')))[:70]))
